@@ -151,6 +151,8 @@ M = {
    [("msg.go", "\tif mw.err != nil {\n\t\t// What would be signed is not the complete message", "\tif mw.err != nil && false {\n\t\t// What would be signed is not the complete message")]),
  "C01-pgp-signed-double-semicolon": ("C01", ["C01"], "the media type of PGP/MIME signed messages ends in a semicolon again (the fix removed)",
    [("msgwriter.go", "`signed; protocol=\"application/pgp-signature\"`", "`signed; protocol=\"application/pgp-signature\";`")]),
+ "C11-readseeker-not-rewound-after-failed-copy": ("C11", ["C11"], "a read-seeker file stays where a failed copy left it (the fix removed)",
+   [("msg.go", "\t\t\t\t_, _ = reader.Seek(start, io.SeekStart)\n\t\t\t\treturn readBytes, err\n", "\t\t\t\treturn readBytes, err\n")]),
  "C17-deadline-times-thousand": ("C17", ["C17"], "deadline armed with timeout*1000",
    [("smtp/smtp.go", "c.conn.SetDeadline(time.Now().Add(timeout))", "c.conn.SetDeadline(time.Now().Add(timeout * 1000))")]),
  "C17-dial-deadline-cleared-after-greeting": ("C17", ["C17"], "the dial-phase deadline is cleared once the greeting was read",
